@@ -64,12 +64,15 @@ def total_items(tier, seed):
     alphabet = list("abcXYZ019 \t\n'\"();,-.*/\\#$%&?@[]{}|~^=+<>!:\x00\x7få☃") + ODD
     for _ in range(100 if tier == 'quick' else 3000):
         items.append({'total': True, 'text': ''.join(rnd.choice(alphabet) for _ in range(rnd.randint(1, 200)))})
-    # unterminated and adversarial forms (bounded time: 2 s for at most 2 kB)
+    # unterminated and adversarial forms (bounded time: 2 s for at most 20 kB)
     adv = ['/* never closed' + '\n' * n for n in (1, 8, 16, 24, 32, 64)]
     adv += ['/* a * b ** c' + '*' * 40, '/*' + '*' * 60 + 'x', '/*' + ' *\n' * 30, 'x = 1; /* tail', '// no newline at the end',
             '"never closed', "'never closed", 'x = "a\nb";', 'x = ' + '(' * 300 + '1' + ')' * 300 + ';',
             'x = ' + '-' * 500 + '1;', 'x = ' + 'not ' * 300 + 'true;', 'x = 1' + ' + 1' * 400 + ';',
-            'end' + ' ' * 1000 + 'if', 'a' * 2000, '1' * 500 + '.' + '2' * 500, 'x = 1.5e+;', 'x = .;', '::', 'LOG::', 'x::y::z;']
+            'end' + ' ' * 1000 + 'if', 'a' * 2000, '1' * 500 + '.' + '2' * 500, 'x = 1.5e+;', 'x = .;', '::', 'LOG::', 'x::y::z;',
+            # literals beyond what int() / float() convert (4300 digits; 1e400)
+            'x = ' + '7' * 6000 + ';', '9' * 5000, 'x = ' + '3' * 5000 + '.5;', 'x = 1e400;', 'x = ' + '1' * 4400 + 'e5;',
+            'x = y[' + '8' * 4500 + '];', 'a' * 20000 + ' = 1;']
     for a in adv:
         items.append({'total': True, 'text': a, 'budget': 2.0})
     return items
